@@ -162,11 +162,36 @@ UNITS += [
 """),
 ]
 
+R_OKO = Rw(r"r\s*\.inspect_err\(\|err\| error!\([^;]*?\)\)\s*\.ok\(\)\?", "vok_entry_o(r)?", regex=True, why="Result::inspect_err(log).ok() -> proved helper")
+UNITS += [
+    Unit(name="opendal_list_entry", file=OD, kind="block", within="fn list_with_size(&self, tpe: FileType) -> RusticResult<Vec<(Id, u32)>>",
+         anchor="@closure:.filter_map(|r|",
+         block_sig="fn opendal_list_entry(r: Result<EntryO, OpErr>, tpe: FileType) -> (res: Option<(Id, u32)>)",
+         block_tail="",
+         functions=["<rustic_backend::opendal::OpenDALBackend as ReadBackend>::list_with_size (per-entry closure of the lister)"],
+         rewrites=[R_OKO, Rw("length(metadata, name, tpe)", "vlength_o(metadata, name, tpe)", why="nested helper `length` (u64 -> u32 conversion with a logging closure) -> stub")],
+         contract="""
+    ensures
+        /*@object_store_lists_only_files_named_by_an_id_with_their_size*/ res matches Some(x) ==> r matches Ok(e) && e.meta.file && NAME_ID(e.name) == Some(x.0) && x.1 == e.meta.len,
+        /*@object_store_lists_every_such_file*/ r matches Ok(e) && e.meta.file && NAME_ID(e.name) is Some && e.meta.len <= u32::MAX ==> res is Some,
+"""),
+    Unit(name="opendal_list_entry_id", file=OD, kind="block", within="fn list(&self, tpe: FileType) -> RusticResult<Vec<Id>>",
+         anchor="@closure:.filter_map(|r|",
+         block_sig="fn opendal_list_entry_id(r: Result<EntryO, OpErr>, tpe: FileType) -> (res: Option<Id>)",
+         block_tail="",
+         functions=["<rustic_backend::opendal::OpenDALBackend as ReadBackend>::list (per-entry closure of the lister)"],
+         rewrites=[R_OKO],
+         contract="""
+    ensures
+        /*@object_store_lists_exactly_the_files_named_by_an_id*/ res == (match r { Ok(e) => if e.meta.file { NAME_ID(e.name) } else { None::<Id> }, Err(_) => None::<Id> }),
+"""),
+]
+
 KANI = []
 META = {"not_covered": [
     "listings: the directory walk itself (walkdir: every file of the type's directory is yielded once), the Config special case of both listings and the name parser Id::from_str (which names are ids: uninterpreted) are NOT decided; the per-entry closures of list and list_with_size ARE units (regular files named by an id, with their true size; the nested helper `length` elided)",
     "the path building itself (base_path / filename / path: PathBuf joins, hex strings): stubs naming the file of a (type, id); Config files ignore the id",
     "the nested helper write_local_file (create/truncate/set_len/copy/sync_all) is elided: assumed to write the whole content or fail leaving anything under THAT name; fs::rename assumed atomic (POSIX); crash behaviour of the file system itself",
-    "of the generic object-store adapter (opendal.rs) read_full / read_partial / write_bytes / remove ARE units over the operator as a map (opendal itself, its fs and memory services, retry/throttle layers: assumed); its listings, create and the path strings are not; rclone and rest backends; the in-memory test backend",
+    "of the generic object-store adapter (opendal.rs) read_full / read_partial / write_bytes / remove ARE units over the operator as a map (opendal itself, its fs and memory services, retry/throttle layers: assumed); the per-entry closures of its two listings as well; the lister itself (which objects it yields), the Config special cases, create and the path strings are not; rclone and rest backends; the in-memory test backend",
     "post-create / post-delete user commands (call_command): assumed not to touch the repository files",
 ]}
